@@ -418,10 +418,31 @@ class ShapeClient(Client):
             return out
         if kind == "stmt" and isinstance(node, ast.Assign) and any(isinstance(t, (ast.Tuple, ast.List)) for t in node.targets):
             if any(isinstance(x, ast.Attribute) and x.attr in lf.link_fields for t in node.targets for x in ast.walk(t)):
-                self.unknown.append(f"simultaneous assignment of link fields at line {node.lineno} (evaluation order not modelled)")
+                # a, b = x, y : the whole right-hand side is evaluated before the first store.  The values are kept in hidden locals
+                # of the frame (so that a later materialisation renames them like any other local) and the stores read them back.
+                tgt = node.targets[0]
+                if len(node.targets) != 1 or not isinstance(node.value, (ast.Tuple, ast.List)) or len(node.value.elts) != len(tgt.elts) \
+                        or any(isinstance(e, ast.Starred) for e in list(tgt.elts) + list(node.value.elts)):
+                    self.unknown.append(f"simultaneous assignment of link fields at line {node.lineno} (shape of the assignment not modelled)")
+                else:
+                    cur = [St.thaw(state)]
+                    for i, e in enumerate(node.value.elts):
+                        nxt = []
+                        for s0 in cur:
+                            for s1, v in self.ev(e, s0, ctx):
+                                s1 = s1.copy()
+                                s1.frames[-1][f"$rhs{node.lineno}_{i}"] = v
+                                nxt.append(s1)
+                        cur = nxt
+                    return [s1.freeze() for s1 in cur]
         if kind == "store":
             st = St.thaw(state)
             rhs = assigned_value(node)
+            par = getattr(node, "_parent", None)
+            if isinstance(par, (ast.Tuple, ast.List)) and isinstance(getattr(par, "_parent", None), ast.Assign) and node in par.elts:
+                hidden = f"$rhs{par._parent.lineno}_{par.elts.index(node)}"
+                if hidden in st.frames[-1]:
+                    rhs = ast.Name(id=hidden, ctx=ast.Load())
             if rhs is None:
                 if isinstance(node, ast.Name):
                     st.frames[-1][node.id] = TOP
